@@ -698,6 +698,9 @@ class Melody:
         return True
 
     def __getattr__(self, item):
+        if item.startswith('__') and item.endswith('__'):
+            # protocol lookups (__deepcopy__, __getstate__ ...) are not note properties: an empty melody answered them with an empty melody
+            raise AttributeError(item)
         try:
             res = Melody([getattr(n, item) for n in self.notes], nb_bars=self.nb_bars, tags=set(self.tags))
             return res
